@@ -1713,6 +1713,18 @@ macro_rules! calculate_rm {
 
 pub(crate) use calculate_rm;
 
+#[cfg(ax_verif)]
+macro_rules! fatal_error {
+    ($message:expr, $($arg:tt)*) => {{
+        // Verification builds (--cfg ax_verif) behave like WASM: return an error instead of panicking
+        return Err(AxError::from(format!($message, $($arg)*)).into());
+    }};
+    ($message:expr) => {{
+        return Err(AxError::from($message).into());
+    }};
+}
+
+#[cfg(not(ax_verif))]
 macro_rules! fatal_error {
     ($message:expr, $($arg:tt)*) => {{
         #[cfg(all(target_arch = "wasm32", not(test)))]
@@ -1755,6 +1767,18 @@ macro_rules! assert_fatal {
 }
 pub(crate) use assert_fatal;
 
+#[cfg(ax_verif)]
+macro_rules! opcode_unimplemented {
+    ($message:expr) => {{
+        // Verification builds (--cfg ax_verif) behave like WASM: return an error instead of panicking
+        return Err(AxError::from(format!(
+            "Executed unimplemented opcode: {}",
+            $message
+        )));
+    }};
+}
+
+#[cfg(not(ax_verif))]
 macro_rules! opcode_unimplemented {
     ($message:expr) => {{
         #[cfg(target_arch = "wasm32")]
